@@ -5,25 +5,28 @@ from pathlib import Path
 NOTES = {
  "C14-2": "lives in Path::for_index (format! + Path::from_str), which is outside the claim (DESIGN 0.4 / C14)",
  "C14-3": "lives in Path::from_str's own split, which is outside the claim: even a concrete 2-byte input does not finish (DESIGN 0.4)",
- "C07-3": "only visible in signed EIP-2930 transactions; the structure query for signed typed transactions exceeds the memory cap (thorough-tier attempt c06_eip2930_signed), so it is not caught",
+ "C07-3": "only visible in signed EIP-2930 transactions; caught since the typed structure queries run with rlp::list as a recorder (c06l_eip2930_signed)",
  "C12-3": "worker-thread error handling in the CLI: process level, outside the claim",
  "C18-3": "lives in Path::for_index, outside the claim (see C14-2)",
  "C20-1": "MemberKind::from_str (type string grammar) is not decided: the recursive parser does not finish even for a concrete prefix + symbolic digits (DESIGN C08)",
  "C08-3": "MemberKind::from_str is not decided (see C20-1)",
- "C11-2": "the guard sits in cmd::sign::run between clap options, file I/O and signing: process level, outside the claim",
+ "C11-2": "the guard sits in cmd::sign::run; the harness c11_cli_guard (everything around the guard as recorders) would see it, but Kani 0.68 cannot compile that function (ICE on the niche-encoded Result<Transaction, _>)",
  "C11-3": "breaks the RLP leaf contract that C11's structure queries assume; it is caught by C07's check (c07_bytes_001, c07_bytes_symlen, c07_uint: same change as C07-1), not by C11's own",
  "C10-2": "needs a message of 10^6 bytes or more (outside the bound); the rewrite also bypasses Digest::of, the stubbed entry point, so the query ends inconclusive (real Keccak rounds)",
- "C06-3": "JSON key dispatch in Transaction::deserialize (JsonObject/serde): outside the claim",
+ "C06-3": "JSON key dispatch in Transaction::deserialize: the harness c06_kind_dispatch would see it, but Kani 0.68 cannot compile that function (ICE on the niche-encoded Result<Eip1559Transaction, _>)",
  "C03-3": "needs a path of 257+ components; depth is bounded by 2",
  "C17-2": "non-termination shows up as a failed unwinding assertion, which this framework reports as inconclusive (exit 2), not as a violation; the query that would reach it (encodeType over cyclic graphs) is a thorough-tier attempt",
- "C13-2": "byte-field strings go through serde_json's Value visitor machinery and exceed the caps beyond the empty string (thorough-tier attempts c13_bytes_N)",
+ "C13-2": "byte-field strings: decided since the error-message rendering is cut (c13n_bytes_2 / c13n_bytes_4)",
  "C13-3": "storage-key strings: as C13-2 (c13_slot_31 did not finish in 30 min)",
  "C13-1": "negative *float* spellings: symbolic f64 values through ethnum's range/fraction checks did not finish (floating-point conversions); integers and the sign guard on integer-typed numbers are decided",
  "C09-2": "same change as C13-1",
  "C02-1": "property C02 is withdrawn (DESIGN C02): Mnemonic::seed's format!/NFKD path does not terminate in CBMC",
  "C02-2": "property C02 is withdrawn; the same change is C01-1 (whitespace splitting), see there",
  "C02-3": "property C02 is withdrawn",
- "C19-1": "property C19 is withdrawn (DESIGN C19)", "C19-2": "property C19 is withdrawn", "C19-3": "property C19 is withdrawn (and the change is in stdout plumbing)",
+ "C19-3": "the change is in cmd::hex::run's stdout plumbing (write vs write_all), which is process-level and outside C19's claim",
+ "C06-6": "needs the access-list structure queries (c06i_alist_*); the rewrite collects the keys into a BTreeSet, which makes the query much more expensive",
+ "C08-4": "lives in Types::struct_hash (memberless struct): the struct_hash queries (c08_struct_hash_empty) do not finish under the caps, so it is not caught",
+ "C08-5": "lives in Types::struct_hash (undeclared member whose value is null): the struct_hash queries (c08_struct_hash_m7) do not finish under the caps, so it is not caught",
 }
 root = Path("/verif/seeded")
 for name, note in NOTES.items():
